@@ -287,7 +287,7 @@ func init() {
 		Explanation: "Decides, for every input and schedule, the structural clause 'on the query result path no error is dropped and every error reaches the caller or the failure bookkeeping': errflow rules over the SSA form of every call site of a result producer, plus dominance rules for the success bookkeeping (cache succeed, NumSuccessfulPartitions) and the scan-continuation rule (a scan never ends by itself with a nil error).",
 		NotDecided:  []string{"whether deadlines/timeouts fire at the right time", "gRPC transport failures below the stream API", "os.IsNotExist on the data file being served as 'no file yet' (reading note)"},
 		Assumptions: []string{"go/ssa models the control flow of the compiled program", "wrapper functions (fmt.Errorf, golog Errorf, errors.New) return a non-nil error carrying their argument"},
-		Rules:       []func(*Ctx){ruleC13a, ruleC13w, ruleC13b},
+		Rules:       []func(*Ctx){ruleC13a, ruleC13w, ruleC13b, ruleC13d, ruleC13e, ruleC13f},
 	})
 }
 
@@ -517,4 +517,191 @@ func bodyAlwaysCalls(body, header *ssa.BasicBlock, callee string) bool {
 		return true
 	}
 	return walk(body)
+}
+
+// ruleC13d: the failure report a follower embeds in its final
+// RemoteQueryResult (Error together with EndOfResults) is examined by every
+// receiver before EndOfResults ends the receive loop.
+func ruleC13d(c *Ctx) {
+	const rule = "C13.d"
+	c.describe(rule, "dom (must-pass): in every function that ends a receive loop on RemoteQueryResult.EndOfResults, each path from the function entry to the EndOfResults==true edge passes the test of RemoteQueryResult.Error against \"\" whose non-empty side builds the error; receivers on streams whose sender never sets Error are exempt (checked: the sender has no store to that field)")
+	isFieldTest := func(i *ssa.If, key string) bool {
+		v, _ := unNot(i.Cond, true)
+		if isFieldLoad(v, key) {
+			return true
+		}
+		if b, ok := v.(*ssa.BinOp); ok && (b.Op == token.EQL || b.Op == token.NEQ) {
+			if isFieldLoad(b.X, key) || isFieldLoad(b.Y, key) {
+				return true
+			}
+		}
+		return false
+	}
+	// senders: which functions store a non-constant / non-empty value into RemoteQueryResult.Error
+	errorSetters := map[string]bool{}
+	for _, fn := range c.P.ModFns {
+		for _, st := range fieldStores(fn, "z/rpc.RemoteQueryResult.Error") {
+			if s, isC := constString(st.Val); isC && s == "" {
+				continue
+			}
+			errorSetters[stableName(fn)] = true
+		}
+	}
+	n := 0
+	for _, fn := range c.P.ModFns {
+		var endTests, errTests []*ssa.If
+		for _, b := range fn.Blocks {
+			if i := ifOf(b); i != nil {
+				if isFieldTest(i, "z/rpc.RemoteQueryResult.EndOfResults") {
+					endTests = append(endTests, i)
+				}
+				if isFieldTest(i, "z/rpc.RemoteQueryResult.Error") {
+					errTests = append(errTests, i)
+				}
+			}
+		}
+		if len(endTests) == 0 {
+			continue
+		}
+		c.touch(fn)
+		n++
+		inst := stableName(fn) + ": Error examined before EndOfResults ends the loop"
+		if stableName(fn) == "(*z/rpc.client).Query$fn" {
+			// exemption with machine-checked side condition
+			srv := c.P.Func("(*z/rpc/server.server).Query")
+			sets := false
+			if srv != nil {
+				for _, f := range withAnon(srv) {
+					if len(fieldStores(f, "z/rpc.RemoteQueryResult.Error")) > 0 {
+						sets = true
+					}
+				}
+			}
+			c.check(rule, inst, endTests[0].Pos(), srv != nil && !sets, "exempt: the sender on the query stream, (*server).Query, reports failure by returning the error (gRPC status) and never stores RemoteQueryResult.Error", "the query stream's sender now sets RemoteQueryResult.Error but this receiver ends on EndOfResults without examining it")
+			continue
+		}
+		avoid := blockSet{}
+		for _, e := range errTests {
+			avoid[e.Block()] = true
+		}
+		ok := len(errTests) > 0
+		for _, t := range endTests {
+			if avoid[t.Block()] {
+				continue
+			}
+			if reach([]*ssa.BasicBlock{fn.Blocks[0]}, avoid, nil)[t.Block()] {
+				ok = false
+			}
+		}
+		// the non-empty side must construct an error
+		built := false
+		for _, e := range errTests {
+			v, pol := unNot(e.Cond, true)
+			nonEmptyIdx := 0
+			if b, isB := v.(*ssa.BinOp); isB {
+				ne := b.Op == token.NEQ
+				if !pol {
+					ne = !ne
+				}
+				if !ne {
+					nonEmptyIdx = 1
+				}
+			}
+			s := e.Block().Succs[nonEmptyIdx]
+			for _, in := range s.Instrs {
+				if call, isC := in.(*ssa.Call); isC && (nonNilErrCallees[calleeName(call)] || calleeName(call) == "github.com/getlantern/errors.New") {
+					built = true
+				}
+			}
+		}
+		c.check(rule, inst, endTests[0].Pos(), ok && built, "every path to the EndOfResults test passes the Error != \"\" test, whose non-empty side builds an error", "a received RemoteQueryResult can end the loop via EndOfResults without its Error field having been examined (the follower reports a failed query as EndOfResults+Error in one message): the partition would be counted as successful")
+	}
+	c.floor(rule, "receivers ending on EndOfResults", n, 2)
+	if len(errorSetters) == 0 {
+		c.undecided(rule, "senders of RemoteQueryResult.Error", token.NoPos, "no function stores RemoteQueryResult.Error any more: rule table out of date")
+	}
+}
+
+// ruleC13e: a deadline that was observed is reported.
+func ruleC13e(c *Ctx) {
+	const rule = "C13.e"
+	c.describe(rule, "errflow from an edge: wherever TimeoutGuard.TimedOut() is tested, every return reachable from its true outcome returns a provably non-nil error (or passes a failure sink)")
+	n := 0
+	for _, fn := range c.P.ModFns {
+		if strings.HasPrefix(pkgOf(fn), "z/cmd") {
+			continue
+		}
+		for _, b := range fn.Blocks {
+			i := ifOf(b)
+			if i == nil {
+				continue
+			}
+			v, pol := unNot(i.Cond, true)
+			call, ok := v.(*ssa.Call)
+			if !ok {
+				continue
+			}
+			cn := calleeName(call)
+			if cn != "invoke (z/core.TimeoutGuard).TimedOut" && cn != "(*z/core.timeoutGuard).TimedOut" {
+				continue
+			}
+			n++
+			c.touch(fn)
+			to := b.Succs[0]
+			if !pol {
+				to = b.Succs[1]
+			}
+			r := errflowFromEdge(c.P, b, to, c13Cfg)
+			inst := stableName(fn) + ": TimedOut()==true is reported"
+			if r.ok {
+				c.ok(rule, inst, call.Pos(), "every return reachable from the timed-out outcome carries a non-nil error")
+			} else {
+				c.bad(rule, inst, call.Pos(), "the deadline is observed (TimedOut()==true) but a return without a provably non-nil error is reachable: the caller receives a truncated result as if complete — "+r.reason, r.path...)
+			}
+		}
+	}
+	c.floor(rule, "TimedOut() tests", n, 4)
+}
+
+// ruleC13f: the leaf consumers (HTTP handler, RPC Query handler) never stop a
+// scan silently: their row callbacks return more=false only with an error.
+func ruleC13f(c *Ctx) {
+	const rule = "C13.f"
+	c.describe(rule, "the row callbacks of the leaf consumers (web doQuery, rpc server Query) return more==false only together with a provably non-nil error: a limit that stops the scan is an error, never a silent truncation")
+	n := 0
+	for _, name := range []string{"(*z/web.handler).doQuery", "(*z/rpc/server.server).Query"} {
+		fn := c.need(rule, name)
+		if fn == nil {
+			continue
+		}
+		for _, a := range fn.AnonFuncs {
+			res := a.Signature.Results()
+			if res.Len() != 2 || !isErrorType(res.At(1).Type()) {
+				continue
+			}
+			if b, ok := res.At(0).Type().Underlying().(*types.Basic); !ok || b.Kind() != types.Bool {
+				continue
+			}
+			c.touch(a)
+			for _, in := range instrs(a) {
+				ret, ok := in.(*ssa.Return)
+				if !ok {
+					continue
+				}
+				n++
+				more, isC := constBool(ret.Results[0])
+				okRet := (isC && more) || provablyNonNilErr(ret.Results[1], ret.Block())
+				c.check(rule, stableName(a)+" return at "+itoa(lineOf(c, ret.Pos())-lineOf(c, a.Pos()))+" lines into the callback", ret.Pos(), okRet,
+					"returns more==true, or an error that is provably non-nil", "the leaf consumer can return more==false (stopping the scan) without a non-nil error: the truncated rows are then presented/cached as a complete result")
+			}
+		}
+	}
+	c.floor(rule, "returns in leaf row callbacks", n, 2)
+}
+
+func lineOf(c *Ctx, p token.Pos) int {
+	if !p.IsValid() {
+		return 0
+	}
+	return c.P.Fset.Position(p).Line
 }
